@@ -521,7 +521,7 @@ def gen_script(rng, wid, adversarial, foreign=()):
 def gen_schedule(rng, n_works=None, n_iter=None, remote=None, adversarial_frac=0.4, suspend=True, collide=True,
                  tick_limit=None):
     n_works = n_works if n_works is not None else rng.randrange(1, 5)
-    n_iter = n_iter if n_iter is not None else rng.randrange(3, 31)
+    n_iter = n_iter if n_iter is not None else (rng.randrange(3, 13) if rng.random() < 0.65 else rng.randrange(13, 31))
     remote = rng.random() < 0.3 if remote is None else remote
     ids = rng.sample(range(11, 40), n_works)
     arrive_at = sorted(rng.randrange(0, max(1, n_iter - 1)) for _ in ids)
